@@ -657,3 +657,6 @@ M('terminal-payload-test-inverted', ['C18'], LN, "raw_data = self.facets if even
 
 M('frame-D41-shape-gray-label-on-colour', ['C10'], FR, "                elif format == 'GRAY':  # possibly inherited from the Frame passed as data\n                    raise ValueError('GRAY is not a format for a 3 channel image, specify RGB or BGR')\n", "", ['C10.R8'])
 M('frame-D41-shape-relabel-unchecked', ['C10'], FR, "            if shapef is not None and (self.__shapef[1] == 'GRAY') != (len(shapef[0]) == 2):  # relabelling does not convert pixels\n                raise ValueError(f'can not relabel a {shapef[1]} image as {self.__shapef[1]}, convert it')\n", "", ['C10.R8'])
+
+M('cli-D42-shape-numeric-id-kept', ['C12'], CLI, "            if isinstance(value := config.get(key), (int, float)) and not isinstance(value, bool):\n                config[key] = str(value)\n", "            pass\n", ['C12.R10'])
+M('seed7-C12-always-localhost', ['C12'], CLI, '''            addr, port = (output[6:].rsplit(":", 1) + ["5550"])[:2]\n            output = f'tcp://{"localhost" if addr[:1] in "*0" else addr}:{port}\'''', '''            port = (output[6:].rsplit(":", 1) + ["5550"])[:2][1]\n            output = f"tcp://localhost:{port}"''', ['C12.R7'])
